@@ -55,7 +55,9 @@ type op struct {
 // fetchErr is the error a failed fetch returns; it names the batch by its first item.
 type fetchErr struct{ first int }
 
-func (e fetchErr) Error() string { return fmt.Sprintf("fetch of the batch starting with item %d failed", e.first) }
+func (e fetchErr) Error() string {
+	return fmt.Sprintf("fetch of the batch starting with item %d failed", e.first)
+}
 
 const fetchOffset = 1000 // result of fetching item x is x+fetchOffset
 
@@ -100,11 +102,16 @@ func timeoutGoroutines() map[int64]bool {
 
 // waitQuiescent returns when every goroutine except the caller is blocked (channel, mutex, select, idle runtime worker).
 // Nothing in the system under test uses real timers or I/O, so from then on nothing moves until the caller acts.
+//
+// Timing: there is NO deadline here. The loop polls the goroutine states until the condition holds, however long the machine
+// takes to schedule the other goroutines; a goroutine that is merely starved shows as runnable/running and keeps the loop
+// waiting. Every observation of a reorder case ("adder call unfinished", "parked at the gate", fetches running, |Output|,
+// settled, items fetched at the rest point) is read only after this returned, so none of them depends on elapsed time.
+// A system that never comes to rest (a livelock; a deadlock IS rest) is left to hx's per-case no-progress detector (180 s).
 func waitQuiescent() error {
 	self := goid()
-	deadline := time.Now().Add(30 * time.Second)
 	confirmed := 0
-	for i := 0; ; i++ {
+	for {
 		runtime.Gosched()
 		n := runtime.Stack(stackBuf, true)
 		if n == len(stackBuf) {
@@ -121,9 +128,6 @@ func waitQuiescent() error {
 			return nil
 		}
 		confirmed = 0
-		if i%256 == 255 && time.Now().After(deadline) {
-			return fmt.Errorf("no quiescence within 30s:\n%s", stackBuf[:n])
-		}
 	}
 }
 
@@ -380,7 +384,7 @@ type fetchRec struct {
 	events   []int
 	ch       chan struct{}
 	released bool
-	failMode int // -1: the fetch succeeds
+	failMode int  // -1: the fetch succeeds
 	ctxGone  bool // the context FetchBatch received was already cancelled
 }
 
